@@ -278,3 +278,36 @@ def samples_of(cases, n=3):
         return []
     idx = sorted({0, len(cases) // 2, len(cases) - 1})[:n]
     return [jsonable(cases[i]) for i in idx]
+
+
+def purity_violations(calls, orders=None, what="value"):
+    """Pure functions must not depend on call history: evaluate the same list of calls
+    [(label, fn, args), ...] in several orders inside ONE process and demand bitwise equal results
+    per call.  A memo keyed too coarsely, a hoisted scratch buffer or a mutated default shows up as
+    a difference between two orders."""
+    import numpy as np  # noqa: PLC0415
+
+    n = len(calls)
+    if orders is None:
+        orders = [list(range(n)), list(range(n - 1, -1, -1)),
+                  [i for k in range(3) for i in range(k, n, 3)]]
+    results = []
+    for order in orders:
+        got = {}
+        for i in order:
+            label, fn, args = calls[i]
+            try:
+                got[i] = ("ok", np.asarray(fn(*args), dtype=float).tobytes())
+            except Exception as e:  # noqa: BLE001
+                got[i] = ("raise", type(e).__name__)
+        results.append(got)
+    out = []
+    for i in range(n):
+        vals = {r[i] for r in results}
+        if len(vals) > 1:
+            label, fn, args = calls[i]
+            shown = [float(np.frombuffer(v[1])[0]) if v[0] == "ok" and len(v[1]) >= 8 else v for v in vals]
+            out.append(V("purity/result-depends-on-call-history",
+                         f"{label}{tuple(args)} returns different {what}s depending on which calls preceded it "
+                         f"in the same process: {shown}", case={"call": label, "args": list(args)}, observed=shown))
+    return out
